@@ -198,6 +198,52 @@ theorem weights_finite (xs : List V) (k : Kind) (hnz : ∃ q : Rat, some q ∈ x
     · simp [applyKind, recip, hne]
     · intro hall; have := hq'nn hall; positivity
 
+/-- for the built-in weightings the property's hypothesis "positive weights once NaN rows are set
+aside" holds by itself: non-negative concentrations (responses for the y-based weightings) with at
+least one non-zero value give strictly positive fit weights -/
+theorem builtin_fit_weights_pos (b : Builtin) (rows : List Row)
+    (hnn : ∀ r ∈ usableRows rows, ∀ q : Rat, (if b.onY then r.y else r.x) = some q → 0 ≤ q)
+    (hnz : ∃ r ∈ usableRows rows, ∃ q : Rat, (if b.onY then r.y else r.x) = some q ∧ q ≠ 0) :
+    ∀ p ∈ fitPts (.builtin b) rows, 0 < p.w := by
+  intro p hp
+  rw [fitPts_eq_map] at hp
+  obtain ⟨r, hr, rfl⟩ := List.mem_map.mp hp
+  generalize hus : usableRows rows = us at *
+  let sel : Row → V := fun r => if b.onY then r.y else r.x
+  have hxs : ∃ q : Rat, some q ∈ us.map sel ∧ q ≠ 0 := by
+    obtain ⟨r0, hr0, q, hq, hq0⟩ := hnz
+    exact ⟨q, List.mem_map.mpr ⟨r0, hr0, hq⟩, hq0⟩
+  obtain ⟨-, m, -, -, -, hall⟩ := weights_finite (us.map sel) b.kind hxs
+  -- the row is usable, so its selected cell is finite
+  have husable : r.usable = true := by
+    have : r ∈ usableRows rows := by rw [hus]; exact hr
+    exact (List.mem_filter.mp this).2
+  obtain ⟨q, hq⟩ : ∃ q : Rat, sel r = some q := by
+    unfold Row.usable at husable
+    simp only [Bool.and_eq_true] at husable
+    by_cases hb : b.onY
+    · obtain ⟨y, hy⟩ := Option.isSome_iff_exists.mp husable.2
+      exact ⟨y, by simp [sel, hb, hy]⟩
+    · obtain ⟨x, hx⟩ := Option.isSome_iff_exists.mp husable.1
+      exact ⟨x, by simp [sel, hb, hx]⟩
+  obtain ⟨i, hi, hget⟩ := List.mem_iff_getElem.mp hr
+  have hxi : (us.map sel)[i]? = some (some q) := by
+    rw [List.getElem?_map, List.getElem?_eq_getElem hi, hget]; simp [hq]
+  obtain ⟨w, hw, -, hpos⟩ := hall i q hxi
+  have hnn' : ∀ a : Rat, some a ∈ us.map sel → 0 ≤ a := by
+    intro a ha
+    obtain ⟨r1, hr1, h1⟩ := List.mem_map.mp ha
+    exact hnn r1 hr1 a h1
+  have hwpos := hpos hnn'
+  have hrow : rowW (.builtin b) us r = some w := by
+    have : (weightsFromWeighting (us.map sel) b.kind)[i]? = some (wOf (us.map sel) b.kind (sel r)) := by
+      rw [wfw_eq_map, List.getElem?_map, List.getElem?_map, List.getElem?_eq_getElem hi, hget]; rfl
+    rw [this] at hw
+    exact Option.some.inj hw
+  show 0 < (ptOf (.builtin b) us r).w
+  simp only [ptOf, hrow, Option.getD_some]
+  exact hwpos
+
 /-! ## non-vacuity -/
 
 def exRows : List Row :=
